@@ -487,9 +487,8 @@ class Analyzer:
                 # can the site be reached after w without re-taking the edge?
                 if wb == tb and pos(wi, wb) < ti_n:
                     return False
-                after = fn.reachable(fn.succs()[wb], avoid_edges=avoid_edges) if fn.succs()[wb] else set()
-                if wi is None and fn.blocks[wb]['term']['k'] == 'call':
-                    pass
+                starts = [x for x in fn.succs()[wb] if (wb, x) not in avoid_edges]
+                after = fn.reachable(starts, avoid_edges=avoid_edges) if starts else set()
                 if tb in after:
                     return False
             return True
@@ -822,7 +821,7 @@ class Analyzer:
         for a in atoms:
             if a == '1':
                 continue
-            out.append({a: Fr(-1)})           # a >= 0 (only unsigned quantities become atoms)
+            out.append({a: Fr(-1)})           # a >= 0 (only unsigned quantities become atoms; `pre:` atoms are old values of such)
             if a.startswith('len:') or '.len(' in a:
                 out.append(add(lin(a), lin(c=-ISIZE_MAX)))
                 m = re.search(r'len:\(\*?_?(\d+)', a)
@@ -875,9 +874,11 @@ class Analyzer:
             facts += pre(self) or []
         facts += self.inv_facts(site_block, site_idx)
         facts += list(extra)
-        vf = self.variant_facts(site_block, site_idx)
+        vf = self.variant_facts(site_block, site_idx) + self.flag_facts(site_block, site_idx)
         self._site = (site_block, site_idx)
         facts += vf
+        facts += self.incr_facts(site_block, site_idx)
+        self._site = (site_block, site_idx)
         return facts
 
     def inv_facts(self, site_block, site_idx):
@@ -948,6 +949,93 @@ class Analyzer:
                 _, b, i, _rv = aggs[0]
                 if not fn.dominates(b, site_block) and not (b in fn.can_reach([site_block])):
                     continue
+                saved = self._site
+                fs = self.facts_at(b, i)
+                self._site = saved
+                for c in fs:
+                    if self.stable_between(self.mutable_atoms(c) | {a for a in c if a.startswith(('P:', 'len:'))}, ('def', b, i), (site_block, site_idx)):
+                        out.append(c)
+        finally:
+            self._in_variant = False
+        return out
+
+    def incr_facts(self, site_block, site_idx):
+        """F11: after `v = v + k` (no later write to v before the site) v == pre + k, where `pre` names the value v had
+        before the statement; every single-assignment copy of v taken before the statement with no write to v in between
+        equals `pre`.  This is the one place where a second version of a variable is named."""
+        fn = self.fn
+        out = []
+        saved = self._site
+        for l, ds in fn.defs().items():
+            if l == 0 or 1 <= l <= fn.argc or len(ds) < 2 or fn.local_ty(l) not in UMAX:
+                continue
+            me = self.atom_local(l)
+            for (b, i, kind, node) in ds:
+                if kind != 'assign' or fn.blocks[b]['cleanup']:
+                    continue
+                if not (fn.dominates(b, site_block) and (b != site_block or site_idx is None or i < site_idx)):
+                    continue
+                self._site = (b, i)
+                e = self.ev_rv(node['rv'], 0, (b, i))
+                self._site = saved
+                if e is None or me not in e or e[me] != 1:
+                    continue
+                k = dict(e)
+                k.pop(me)
+                if any(v < 0 for v in k.values()):
+                    continue
+                if not self.stable_between({me} | self.mutable_atoms(k), ('def', b, i), (site_block, site_idx)):
+                    continue
+                pre = 'pre:%d@%d.%d' % (l, b, i)
+                out.extend(eq(lin(me), add(lin(pre), k)))
+                # copies of v taken before the increment
+                for c, cds in fn.defs().items():
+                    if len(cds) != 1 or cds[0][2] != 'assign':
+                        continue
+                    cb, ci, _, cn = cds[0]
+                    rv = cn['rv']
+                    if rv['k'] == 'use' and is_place(rv['op']) and not rv['op']['pl']['p'] and rv['op']['pl']['l'] == l:
+                        if fn.dominates(cb, b) and (cb != b or ci < i) and self.stable_between({me}, ('def', cb, ci), (b, i)):
+                            out.extend(eq(lin(self.atom_local(c)), lin(pre)))
+        self._site = saved
+        return out
+
+    def flag_facts(self, site_block, site_idx):
+        """A dominating branch on a boolean local that is only ever assigned constants: if exactly one statement assigns
+        the value the branch selected, control passed that statement, so what held there still holds as far as its inputs
+        are unchanged (`let finished = loop { .. break true .. break false }`, `found = true`)."""
+        if getattr(self, '_in_variant', False):
+            return []
+        fn = self.fn
+        out = []
+        self._in_variant = True
+        try:
+            for s in fn.doms(site_block):
+                preds = [p for p in fn.preds()[s] if p in fn.idom() and not fn.dominates(s, p)]
+                if len(preds) != 1:
+                    continue
+                p = preds[0]
+                t = fn.blocks[p]['term']
+                if t['k'] != 'switch' or not is_place(t['op']) or t['op']['pl']['p']:
+                    continue
+                l = fn.canon(t['op']['pl'])
+                if l['p'] or fn.local_ty(l['l']) != 'bool':
+                    continue
+                ds = [d for d in fn.defs().get(l['l'], []) if not fn.blocks[d[0]]['cleanup']]
+                if len(ds) < 2 or not all(d[2] == 'assign' and d[3]['rv']['k'] == 'use' and d[3]['rv']['op']['k'] == 'const' for d in ds):
+                    continue
+                vals = [v for v, tb in t['targets'] if tb == s]
+                if vals == [0]:
+                    want = 'false'
+                elif t['otherwise'] == s and not vals and [v for v, tb in t['targets']] == [0]:
+                    want = 'true'
+                else:
+                    continue
+                hits = [d for d in ds if const_name(d[3]['rv']['op']) == want]
+                if len(hits) != 1:
+                    continue
+                b, i = hits[0][0], hits[0][1]
+                # the copy tested must have been taken after that store: the store reaches the switch
                 saved = self._site
                 fs = self.facts_at(b, i)
                 self._site = saved
